@@ -1,5 +1,6 @@
 import ShkModel.Driver.C01
 import ShkModel.Driver.C18
+import ShkModel.Driver.C19
 import ShkModel.Driver.C16
 import ShkModel.Driver.C17
 import ShkModel.Driver.C06
@@ -19,6 +20,7 @@ def dispatch (line : String) : String :=
   match (line.trimAscii.toString.splitOn " ").filter (· ≠ "") with
   | "C01" :: rest => C01.handle rest
   | "C18" :: rest => C18.handle rest
+  | "C19" :: rest => C19.handle rest
   | "C16" :: rest => C16.handle rest
   | "C17" :: rest => C17.handle rest
   | "C06" :: rest => C06.handle rest
